@@ -2,7 +2,7 @@
    different nodes of a tree differ.  Guard sep_safe: the tree's separator is one character that
    occurs in no name of the tree, and names are non-empty (Node refuses empty names). *)
 From BT Require Import Base.Prelude Base.Str Heap.Forest Heap.ForestWF Heap.ForestOps Heap.ForestStep
-     Heap.ForestPath Heap.ForestNames Algo.SearchProofs.
+     Heap.ForestPath Heap.ForestNames Algo.SearchProofs Base.StrSep.
 
 Section OneCharSep.
 Variable c : N.
@@ -106,6 +106,51 @@ Proof.
   assert (Hsafe1 : sep_safe s (root s n1) c) by (rewrite Hroot; exact Hsafe).
   pose proof (lookup_roundtrip s n1 n1 c W H eq_refl Hsafe1) as L1.
   pose proof (lookup_roundtrip s n1 n2 c W H Hroot Hsafe) as L2.
+  rewrite E in L1. rewrite L1 in L2. congruence.
+Qed.
+
+(* The same two theorems for a separator of ANY positive length none of whose characters occurs in a
+   name of the tree (sfree); names are non-empty.  One-character sep_safe is the special case. *)
+Definition sep_safe_multi (s : forest) (r0 : id) : Prop :=
+  sepf s r0 <> [] /\ forall x, root s x = r0 -> sgood (sepf s r0) (name s x).
+
+Lemma sep_safe_is_multi s r0 c : sep_safe s r0 c -> sep_safe_multi s r0.
+Proof.
+  intros [E H]. split; [rewrite E; discriminate|].
+  intros x Hx. destruct (H x Hx) as [Hne Hc]. rewrite E. split; [exact Hne|].
+  apply sfree_one. exact Hc.
+Qed.
+
+Theorem lookup_roundtrip_multi s m n :
+  WF s -> SU s -> root s m = root s n -> sep_safe_multi s (root s n) ->
+  find_full_path s m (path_name s n) = Ret (Some n).
+Proof.
+  intros W H Hroot [Hsep Hgood].
+  unfold find_full_path, path_list.
+  rewrite (sep_spec s m W), Hroot.
+  rewrite (path_name_spec s n W), (sep_spec s n W).
+  assert (Hne : map (name s) (route s n) <> []).
+  { unfold route. intros E. apply (f_equal (@length _)) in E. rewrite map_length, rev_length in E. discriminate. }
+  assert (Hall : Forall (sgood (sepf s (root s n))) (map (name s) (route s n))).
+  { rewrite Forall_forall. intros y Hy. apply in_map_iff in Hy as [x [<- Hx]].
+    apply Hgood. apply (route_same_root s W (ancestors s n) n x eq_refl Hx). }
+  rewrite (path_list_roundtrip_multi _ _ Hsep Hne Hall).
+  assert (Hhd : hd [] (map (name s) (route s n)) = name s (root s n)).
+  { rewrite <- (route_head s n W). destruct (route s n) as [|r0 rt]; [cbn in Hne; congruence|reflexivity]. }
+  rewrite Hhd, str_eqb_refl. cbn [negb].
+  replace (tl (map (name s) (route s n))) with (map (name s) (tl (route s n)) ++ [])
+    by (rewrite app_nil_r; destruct (route s n); reflexivity).
+  rewrite (descend_route s W H (ancestors s n) n [] eq_refl). reflexivity.
+Qed.
+
+Theorem paths_distinct_multi s n1 n2 :
+  WF s -> SU s -> root s n1 = root s n2 -> sep_safe_multi s (root s n2) ->
+  path_name s n1 = path_name s n2 -> n1 = n2.
+Proof.
+  intros W H Hroot Hsafe E.
+  assert (Hsafe1 : sep_safe_multi s (root s n1)) by (rewrite Hroot; exact Hsafe).
+  pose proof (lookup_roundtrip_multi s n1 n1 W H eq_refl Hsafe1) as L1.
+  pose proof (lookup_roundtrip_multi s n1 n2 W H Hroot Hsafe) as L2.
   rewrite E in L1. rewrite L1 in L2. congruence.
 Qed.
 
